@@ -16,6 +16,10 @@ pub struct ExIoError(std::io::Error);
 #[verifier::external_type_specification]
 pub struct ExSeekFrom(std::io::SeekFrom);
 
+/// T3: `<[T]>::to_vec` returns an equal vector (the crate uses it at T = u8 only)
+pub assume_specification<T: Clone>[ <[T]>::to_vec ](s: &[T]) -> (r: Vec<T>)
+    ensures r@ == s@;
+
 // ---- R5 targets -------------------------------------------------------------------------------
 /// `panic!/unimplemented!/unreachable!` sites: must be unreachable
 #[verifier::external_body]
